@@ -10,6 +10,8 @@ CONSTANTS
   MaxElems = 12
   TakeAll = TRUE
   Mutant = "mul-index-strides"
+INVARIANT ContainerInv
+INVARIANT LocatedInv
 INVARIANT Sizes
 INVARIANT IndexPartition
 INVARIANT EvalOrder
